@@ -112,6 +112,7 @@ type PkgSpec struct {
 	InlineExt []string
 	Opaque    []string
 	Callers   []*CallersRule
+	NonBlock  []*CallersRule // "nonblocking F1, F2": Allowed holds the functions
 	Axioms    []*FuncSpec
 }
 
@@ -273,6 +274,15 @@ func parseSpecFile(path string, ps *PkgSpec, trustedFile bool) error {
 				allowed = append(allowed, strings.TrimSpace(a))
 			}
 			ps.Callers = append(ps.Callers, &CallersRule{Callee: strings.TrimSpace(rest[:oi]), Allowed: allowed, Label: label, Tags: tags, File: path, Line: ln})
+			cur = nil
+		case strings.HasPrefix(t, "nonblocking "):
+			// nonblocking F1, F2 #label @tags   the functions (and what they call inside /repo) never block on a channel
+			text, label, tags := splitLabelTags(" " + strings.TrimPrefix(t, "nonblocking "))
+			var fns []string
+			for _, a := range strings.Split(text, ",") {
+				fns = append(fns, strings.TrimSpace(a))
+			}
+			ps.NonBlock = append(ps.NonBlock, &CallersRule{Allowed: fns, Label: label, Tags: tags, File: path, Line: ln})
 			cur = nil
 		case strings.HasPrefix(t, "inline_external "):
 			ps.InlineExt = append(ps.InlineExt, strings.TrimSpace(strings.TrimPrefix(t, "inline_external ")))
